@@ -773,3 +773,60 @@ PROPS["C06"] = {
     "outside": "QR algorithm, eigensystem, SVD, Gram-Schmidt, Hessenberg on magic matrices; order-2 derivatives; Jacobian/Hessian helpers",
     "assumptions": ["floats read as reals in the derivative identities; denominators and radicands assumed in the domain"],
 }
+
+# ----------------------------------------------------------------------------- C01 / C02 (scalar spec)
+def _c01(rt):
+    return ("tmpl/zz_verif_c01.go.tmpl", f"zz_verif_c01_{rt}.go", {"RTYPE": rt})
+
+
+C01_NOPS = 27
+
+
+def c01_jobs(tier):
+    jobs = []
+    cfgs = [2, 3] if tier == "quick" else [1, 2, 3, 4, 5]
+    for rt in (["Real64"] if tier == "quick" else ["Real64", "Real32"]):
+        for op in range(C01_NOPS):
+            for cfg in cfgs:
+                jobs.append({"func": f"verif_C01_scalar_{rt}", "args": [op, cfg], "mode": "real", "tag": f"{rt} op={op} cfg={cfg}"})
+    return jobs
+
+
+PROPS["C01"] = {
+    "overlay": [RT, SCALAR_COMMON, _scalar_real("Real64"), _scalar_real("Real32"), _c01("Real64"), _c01("Real32")],
+    "mode": "real", "intmode": "int",
+    "jobs": c01_jobs,
+    "reach": ["scalar-spec"],
+    "replay_tol": 1e-6,
+    "job_budget_ms": {"quick": 120000, "thorough": 900000},
+    "selftest_vars": [],
+    "bounds": {"quick": "one operation applied to operands with fully symbolic jets (inductive step over expression DAGs): 27 elementary operations of Real64, N=2, order 2, magic and constant operands; "
+                        "gradient and Hessian slots equal the chain rule applied to the textbook partial derivatives written in the harness; Hessian symmetry; real interpretation with libm heads uninterpreted plus lemma instances",
+               "thorough": "also Real32, N=1, mixed orders"},
+    "outside": "rounding; operations built on special.* (LogErfc, Gamma, Lgamma, Mlgamma, GammaP, BesselI, LogBesselI): only their chain-rule combinators are exercised (C08/C09), their derivative formulas are not compared; vector/matrix reductions; the points x=0 of Abs and x=y of Min/Max",
+    "assumptions": ["floats read as reals; each operation's argument assumed in the interior of its domain", "lemma instances: sin^2+cos^2=1, tan*cos=sin, cosh^2-sinh^2=1, tanh*cosh=sinh, exp>0, exp(-u)exp(u)=1, exp(u+v)=exp(u)exp(v) on the terms that occur"],
+}
+
+
+def c02_jobs(tier):
+    jobs = []
+    for rt in (["Real64"] if tier == "quick" else ["Real64", "Real32"]):
+        for op in range(C01_NOPS):
+            jobs.append({"func": f"verif_C02_scalar_{rt}", "args": [op, 0], "mode": "real", "tag": f"{rt} op={op}"})
+            jobs.append({"func": f"verif_C02_scalar_{rt}", "args": [op, 2], "mode": "real", "tag": f"{rt} op={op} magic"})
+    return jobs
+
+
+PROPS["C02"] = {
+    "overlay": [RT, SCALAR_COMMON, _scalar_real("Real64"), _scalar_real("Real32"), _c01("Real64"), _c01("Real32")],
+    "mode": "real", "intmode": "int",
+    "jobs": c02_jobs,
+    "reach": ["scalar-spec"],
+    "replay_tol": 1e-6,
+    "job_budget_ms": {"quick": 120000, "thorough": 900000},
+    "selftest_vars": [],
+    "bounds": {"quick": "value of 27 elementary Real64 operations equals the named function written in the harness over the same libm heads, on every branch of the piecewise definitions, with and without derivative tracking; real interpretation",
+               "thorough": "also Real32"},
+    "outside": "accuracy of libm and special.*; the integer scalar types, type conversions and cross-type agreement (not yet encoded); IEEE special values",
+    "assumptions": ["floats read as reals; libm heads uninterpreted (value equality means: same head applied to the same argument, or provable from the lemma instances)"],
+}
